@@ -43,28 +43,41 @@ static void runTrie(vio::Cursor & c, vio::Out & o) {
 
 // FilterMap<size_t, TrieType>: item stored for id k is 1000 + k; the IndexMap returned by filter is
 // iterated and the items are printed (so ids -> items indirection is exercised).
+template <typename It>
+static std::vector<size_t> items(It && it) { std::vector<size_t> v; for (const auto & x : it) v.push_back(x); return v; }
+
+// Every query is issued twice: through the non-const overload (Iterable) and through the const
+// overload (ConstIterable) of the same FilterMap; both item lists are printed, in that order.
 template <typename TrieType>
 static void runFilterMap(vio::Cursor & c, vio::Out & o) {
     Factors F = readFactors(c);
     c.expect("ops");
     FilterMap<size_t, TrieType> m(F);
+    const FilterMap<size_t, TrieType> & cm = m;
     size_t next = 0;
     while (!c.atEnd()) {
         const std::string op = c.next();
         if (op == "i") { auto pf = readPf(c); m.emplace(pf, 1000 + next); ++next; }
-        else if (op == "F") { Factors f = readFactors(c); auto it = m.filter(f); std::vector<size_t> v; for (auto x : it) v.push_back(x); o.list(v); }
+        else if (op == "F") { Factors f = readFactors(c); o.list(items(m.filter(f))); o.list(items(cm.filter(f))); }
         else if (op == "f") {
             Factors f = readFactors(c); size_t off = c.nextSize();
-            if constexpr (std::is_same_v<TrieType, Trie>) { auto it = m.filter(f, off); std::vector<size_t> v; for (auto x : it) v.push_back(x); o.list(v); }
+            if constexpr (std::is_same_v<TrieType, Trie>) { o.list(items(m.filter(f, off))); o.list(items(cm.filter(f, off))); }
             else throw std::logic_error("offset filter needs Trie");
         }
         else if (op == "p") {
             auto pf = readPf(c);
             // FilterMap<T, FasterTrie>::filter(PartialFactors) does not instantiate (FasterTrie has no such overload)
-            if constexpr (std::is_same_v<TrieType, Trie>) { auto it = m.filter(pf); std::vector<size_t> v; for (auto x : it) v.push_back(x); o.list(v); }
+            if constexpr (std::is_same_v<TrieType, Trie>) { o.list(items(m.filter(pf))); o.list(items(cm.filter(pf))); }
             else throw std::logic_error("PartialFactors filter needs Trie");
         }
-        else if (op == "z") { o << m.size() << m.getTrie().size(); }
+        else if (op == "z") {
+            // size(), the trie's size, and the container seen through operator[] / begin..end / getContainer
+            o << cm.size() << cm.getTrie().size();
+            std::vector<size_t> viaIndex, viaIter(cm.begin(), cm.end());
+            for (size_t k = 0; k < cm.size(); ++k) viaIndex.push_back(cm[k]);
+            o << (viaIndex == cm.getContainer() && viaIter == cm.getContainer() && std::vector<size_t>(m.begin(), m.end()) == viaIter);
+            o << (cm.getF() == F);
+        }
         else throw std::logic_error("unknown filtermap op " + op);
     }
 }
